@@ -292,6 +292,69 @@ def r09_3(ctx: Ctx) -> None:
            form=str(sorted(feats)))
 
 
+def r09_4(ctx: Ctx) -> None:
+    """ the exon walk of the compound case: which exon holds the first base and which holds the last base is a
+        half-open membership test - a range may start or end exactly at an exon border """
+    qual = "Feature.get_sub_location_from_protein_coordinates"
+    func = ctx.fn(FEAT, qual)
+    pair = [n for n in walk_local(func) if isinstance(n, ast.Assign) and isinstance(n.value, ast.Call)
+            and call_name(n.value) == "convert_protein_position_to_dna" and isinstance(n.targets[0], ast.Tuple)
+            and len(n.targets[0].elts) == 2 and all(isinstance(e, ast.Name) for e in n.targets[0].elts)]
+    if len(pair) != 1:
+        raise AnalysisError(f"{qual}: the (dna start, dna end) pair from convert_protein_position_to_dna was not found")
+    first, last = (e.id for e in pair[0].targets[0].elts)  # type: ignore[attr-defined]
+    loops = [n for n in walk_local(func) if isinstance(n, ast.For) and isinstance(n.target, ast.Name)
+             and ".parts" in txt(n.iter) and any(isinstance(x, ast.Call) and call_name(x) in ("FeatureLocation", "CompoundLocation")
+                                                 for x in ast.walk(n))]
+    if len(loops) != 1:
+        raise AnalysisError(f"{qual}: the exon walk building the sub-location was not found")
+    loop = loops[0]
+    var = loop.target.id  # type: ignore[attr-defined]
+    tests: List[ast.AST] = []
+    for node in walk_local(loop):
+        if isinstance(node, (ast.If, ast.IfExp, ast.While)):
+            tests.append(node.test)
+    count = 0
+    for test in tests:
+        for lit, _ in _split(test):
+            names = {n.id for n in ast.walk(lit) if isinstance(n, ast.Name)}
+            if var not in names or not names & {first, last}:
+                continue
+            count += 1
+            if {first, last} <= names:
+                ctx.cannot("R09.4", FEAT, lit, qual, f"exon test {txt(lit)}", "test mixes the first and the last base")
+                continue
+            spec = f"{first} in {var}" if first in names else f"{last} - 1 in {var}"
+            try:
+                ok, cex, n = decide(lit, parse(spec))
+                ctx.ob("R09.4", FEAT, lit, qual, f"exon test on {'first' if first in names else 'last'} base #{count}", ok,
+                       "an exon holds the first base / the last base (end - 1) of the range iff exon.start <= base < exon.end, "
+                       "so ranges that start or end exactly at an exon border select the right exon",
+                       detail=f"differs from `{spec}` at {cex}" if cex else f"{n} orderings enumerated", form=txt(lit))
+            except OutsideFragment as err:
+                ctx.cannot("R09.4", FEAT, lit, qual, f"exon test {txt(lit)}", str(err))
+    if count < 3:
+        raise AnalysisError(f"{qual}: expected 3 exon membership tests in the exon walk, found {count}")
+    # the walk visits exons in ascending coordinate order (the arms assume start-before-end)
+    ok = isinstance(loop.iter, ast.Call) and call_name(loop.iter) == "sorted" and kwarg(loop.iter, "key") is not None \
+        and txt(kwarg(loop.iter, "key")).endswith(".start") and kwarg(loop.iter, "reverse") is None
+    ctx.ob("R09.4", FEAT, loop, qual, "exon walk order", ok,
+           "the exons are visited in ascending start order, whatever the strand (parts are re-reversed afterwards)",
+           form=txt(loop.iter))
+
+
+def _split(test: ast.AST):
+    from ..flow import literals
+    out = []
+    for expr, truth in literals(test, True):
+        if isinstance(expr, ast.BoolOp):
+            for value in expr.values:
+                out += _split(value)
+        else:
+            out.append((expr, truth))
+    return out
+
+
 def run(ctx: Ctx) -> None:
     ctx.rule("R09.1", "affine protein->DNA conversion for single-exon genes on both strands; range guard", floor=6)
     ctx.rule("R09.2", "in-gene locations are not built by offset arithmetic on location.start/end", floor=2)
@@ -299,3 +362,5 @@ def run(ctx: Ctx) -> None:
     r09_1(ctx)
     r09_2(ctx)
     r09_3(ctx)
+    ctx.rule("R09.4", "exon membership tests of the compound sub-location walk are half-open", floor=4)
+    r09_4(ctx)
